@@ -46,7 +46,8 @@ def gen_knn_case(rng, tier, *, model=None, metrics=None, max_n=None, gclasses=No
         if rng.random() < 0.3:
             Q[t] = X[int(rng.integers(0, n))]
     case = {"model": model, "metric": metric, "gclass": gc, "pattern": pattern, "X": X.tolist(), "Y": Y.tolist(),
-            "V": V.tolist(), "YV": [int(v) for v in YV], "Q": Q.tolist(), "min_k": min_k, "max_k": max_k, "pre": None}
+            "V": V.tolist(), "YV": [int(v) for v in YV], "Q": Q.tolist(), "min_k": min_k, "max_k": max_k, "pre": None,
+            "refit": bool(rng.random() < 0.15)}
     if allow_pre and rng.random() < 0.25:
         # pre-computed distances.  unsupervised: N x N matrix of a larger dataset, shuffled training subset, queries anywhere.
         # KNN-supervised demands an n_train x n_train matrix: training = a permutation of 0..n-1, validation/query indices inside it.
@@ -74,7 +75,7 @@ def arrays(case):
             np.array(case["YV"], dtype=int), np.array(case["Q"], dtype=float).reshape(-1, d))
 
 
-def fit_model(case, m=None):
+def fit_model(case, m=None, before_final=None):
     """Build + fit the real model of the case. Returns (model, Call)."""
     from .snap import build_model, safe_call
 
@@ -97,6 +98,15 @@ def fit_model(case, m=None):
             if tmp:
                 shutil.rmtree(tmp, ignore_errors=True)
     I = np.array(pre["I"], dtype=int) if pre else None
+    if case.get("refit"):
+        # history: the same model object was fitted before on other data of the same shape (reversed rows, shifted values)
+        X0 = X[::-1] * 1.5 + 0.25
+        if case["model"] == "knn":
+            safe_call(m.fit, X0.copy(), Y[::-1].copy(), V.copy(), YV.copy(), I, np.array(pre["IV"], dtype=int) if pre else None)
+        else:
+            safe_call(m.fit, X0.copy(), Y[::-1].copy(), I)
+    if before_final is not None:
+        before_final()
     if case["model"] == "knn":
         IV = np.array(pre["IV"], dtype=int) if pre else None
         return m, safe_call(m.fit, X.copy(), Y.copy(), V.copy(), YV.copy(), I, IV)
